@@ -38,6 +38,7 @@ class Roles:
         self.rd = cfgm.ReachingDefs(self.g)
         self._memo = {}
         self._dump = {}
+        self._inl = {}
 
     def role(self, e, at, depth=0):
         """Role string of expression e evaluated at CFG node `at`, or None (memoised)."""
@@ -49,7 +50,7 @@ class Roles:
     def _role(self, e, at, depth=0):
         if depth > 6:
             return None
-        if isinstance(e, ast.Subscript) and astx.path(e.value) == 'self.options':
+        if isinstance(e, ast.Subscript) and (astx.path(e.value) == 'self.options' or self._is_options(e.value, at)):
             k = astx.const_str(e.slice)
             return f'opt:{k}' if k else None
         p = astx.path(e)
@@ -83,6 +84,62 @@ class Roles:
             return None
         if isinstance(e, ast.Constant):
             return f'const:{e.value!r}'
+        return None
+
+    def _is_options(self, e, at):
+        """e is a local name every reaching definition of which is `self.options`."""
+        if not isinstance(e, ast.Name):
+            return False
+        ds = self.rd.defs(at, e.id)
+        return bool(ds) and all(d.kind == 'stmt' and isinstance(d.ast, ast.Assign) and len(d.ast.targets) == 1
+                                and astx.path(d.ast.value) == 'self.options' for d in ds)
+
+    def inline(self, call):
+        """Body expression of a one-expression predicate method called as self.m(...) / cls.m(...), with the
+        parameters replaced by the argument expressions of *call*; None if the call is not of that kind."""
+        k = id(call)
+        if k in self._inl:
+            return self._inl[k][1]
+        res = None
+        f = call.func
+        if isinstance(f, ast.Attribute) and (astx.path(f.value) in ('self', 'type(self)', 'self.__class__') or
+                                             (isinstance(f.value, ast.Name) and f.value.id in self._class_names())):
+            h = self._method(f.attr)
+            if h is not None and not call.keywords or (h is not None and all(kw.arg for kw in call.keywords)):
+                body = [st for st in h.node.body if not (isinstance(st, ast.Expr) and
+                                                         isinstance(st.value, ast.Constant))]
+                params = [a.arg for a in h.node.args.args]
+                if 'staticmethod' not in h.decorators():
+                    params = params[1:]
+                if len(body) == 1 and isinstance(body[0], ast.Return) and body[0].value is not None and \
+                        not h.node.args.vararg and not h.node.args.kwarg and len(call.args) <= len(params):
+                    env = dict(zip(params, call.args))
+                    for kw in call.keywords:
+                        env[kw.arg] = kw.value
+                    if set(env) == set(params):
+                        res = _subst(body[0].value, env)
+        self._inl[k] = (call, res)      # keeps the nodes alive: memo tables are keyed by id()
+        return res
+
+    def _class_names(self):
+        out, todo = set(), [self.fn.cls] if self.fn.cls is not None else []
+        classes = {c.name: c for c in ast.walk(self.fn.module.tree) if isinstance(c, ast.ClassDef)} \
+            if hasattr(self.fn.module, 'tree') else {}
+        while todo:
+            c = todo.pop()
+            if c.name in out:
+                continue
+            out.add(c.name)
+            for b in c.bases:
+                if isinstance(b, ast.Name) and b.id in classes:
+                    todo.append(classes[b.id])
+        return out
+
+    def _method(self, name):
+        for cn in self._class_names():
+            h = self.fn.module.funcs.get(f'{cn}.{name}')
+            if h is not None:
+                return h
         return None
 
     def _def_role(self, d, name, depth):
@@ -149,6 +206,21 @@ _SWAP = {'<': '>', '<=': '>=', '>': '<', '>=': '<=', '==': '==', '!=': '!='}
 _PAIRS = {('norm', 'opt:atol'): 'A', ('rel', 'opt:rtol'): 'R', ('iter', 'opt:maxiter'): 'I'}
 
 
+def _subst(e, env):
+    """Copy of expression e with the names in env replaced by the (original) nodes they map to."""
+    if isinstance(e, ast.Name) and e.id in env:
+        return env[e.id]
+    if not isinstance(e, ast.AST):
+        return e
+    c = type(e)()
+    for fld, v in ast.iter_fields(e):
+        if isinstance(v, list):
+            setattr(c, fld, [_subst(x, env) for x in v])
+        else:
+            setattr(c, fld, _subst(v, env))
+    return ast.copy_location(c, e)
+
+
 class Unknown(Exception):
     def __init__(self, node):
         self.node = node
@@ -205,6 +277,9 @@ def ev(e, s, roles, at, flags, free):
         if a in known and b in known:
             raise Mismatch(e, f'compares {a} with {b}')
     if isinstance(e, ast.Call):
+        body = roles.inline(e)
+        if body is not None:
+            return ev(body, s, roles, at, flags, free)
         nm = astx.call_name(e)
         if nm in ('np.isnan', 'numpy.isnan', 'math.isnan') and len(e.args) == 1 and \
                 roles.role(e.args[0], at) == 'norm':
@@ -639,16 +714,32 @@ def stall(repo, out):
             continue
         # counter discipline: the enclosing branch increments cnt by one; sibling branch resets it to 0
         outer = par._parent
-        if not (isinstance(outer, ast.If) and par in outer.body):
+        # the small-change test, also in negated form (`if not (change <= tol): <reset> else: <count>`):
+        # `not` swaps the two branches exactly (also for NaN), a reversed comparison would not
+        otest, small, large = (outer.test, outer.body, outer.orelse) if isinstance(outer, ast.If) else (None, [], [])
+        while isinstance(otest, ast.UnaryOp) and isinstance(otest.op, ast.Not):
+            otest, small, large = otest.operand, large, small
+        if not (isinstance(outer, ast.If) and par in small):
             out.bad(fn, par, 'stall test is not inside the small-change branch', key='stall-flag')
             ok = False
             continue
-        incs = [s for s in outer.body if isinstance(s, ast.AugAssign) and astx.path(s.target) == cnt
-                and isinstance(s.op, ast.Add) and isinstance(s.value, ast.Constant) and s.value.value == 1]
-        resets = [s for s in outer.orelse if isinstance(s, ast.Assign) and
-                  any(astx.path(t2) == cnt for t2 in s.targets) and isinstance(s.value, ast.Constant)
-                  and s.value.value == 0]
-        if len(incs) != 1 or outer.body.index(incs[0]) > outer.body.index(par):
+
+        def _is_inc(s_):
+            if isinstance(s_, ast.AugAssign):
+                return astx.path(s_.target) == cnt and isinstance(s_.op, ast.Add) and \
+                    isinstance(s_.value, ast.Constant) and s_.value.value == 1
+            if isinstance(s_, ast.Assign) and len(s_.targets) == 1 and astx.path(s_.targets[0]) == cnt and \
+                    isinstance(s_.value, ast.BinOp) and isinstance(s_.value.op, ast.Add):
+                v = s_.value
+                return any(astx.path(a) == cnt and isinstance(b, ast.Constant) and b.value == 1 and
+                           not isinstance(b.value, bool) for a, b in ((v.left, v.right), (v.right, v.left)))
+            return False
+        cnt_writes = [s_ for s_ in small if any(astx.path(t2) == cnt for t2 in astx.assigned_targets(s_))]
+        incs = [s_ for s_ in small if _is_inc(s_)]
+        resets = [s_ for s_ in large if isinstance(s_, ast.Assign) and
+                  any(astx.path(t2) == cnt for t2 in s_.targets) and isinstance(s_.value, ast.Constant)
+                  and s_.value.value == 0]
+        if len(incs) != 1 or len(cnt_writes) != 1 or small.index(incs[0]) > small.index(par):
             out.bad(fn, outer, f'{cnt} is not incremented exactly once before the limit test', key='stall-count')
             ok = False
             continue
@@ -658,7 +749,7 @@ def stall(repo, out):
             ok = False
             continue
         # the small-change test: diff <= stall_tol
-        tt = astx.canon(outer.test)
+        tt = astx.canon(otest)
         hn = roles.g.nodes_of(outer)[0]
         if not (isinstance(tt, ast.Compare) and len(tt.ops) == 1 and type(tt.ops[0]) in (ast.LtE, ast.Lt)
                 and roles.role(tt.comparators[0], hn) == 'opt:stall_tol'):
@@ -957,6 +1048,16 @@ selftest(
            '                self._run_apply()\n                norm = self._iter_get_norm()\n                self._single_iteration()\n                self._iter_count += 1', 'C09.norm'),
     Mutant('forced-never-cleared', _S, '            if system.under_complex_step:\n                force_one_iteration = False',
            '            if system.under_complex_step and norm > atol:\n                force_one_iteration = False', 'C09.forced'),
+    Twin('twin-stall-negated-branches', _S, "                    if norm_diff <= stall_tol:\n                        stall_count += 1\n                        if stall_count >= stall_limit:\n                            stalled = True\n                    else:\n                        stall_count = 0\n                        stall_norm = norm_for_stall\n", "                    if not (norm_diff <= stall_tol):\n                        stall_count = 0\n                        stall_norm = norm_for_stall\n                    else:\n                        stall_count = stall_count + 1\n                        if stall_limit <= stall_count:\n                            stalled = True\n"),
+    Mutant('stall-negated-inc-two', _S, "                    if norm_diff <= stall_tol:\n                        stall_count += 1\n                        if stall_count >= stall_limit:\n                            stalled = True\n                    else:\n                        stall_count = 0\n                        stall_norm = norm_for_stall\n", "                    if not (norm_diff <= stall_tol):\n                        stall_count = 0\n                        stall_norm = norm_for_stall\n                    else:\n                        stall_count = stall_count + 2\n                        if stall_limit <= stall_count:\n                            stalled = True\n", 'C09.stall'),
+    Mutant('stall-negated-branches-exchanged', _S, "                    if norm_diff <= stall_tol:\n                        stall_count += 1\n                        if stall_count >= stall_limit:\n                            stalled = True\n                    else:\n                        stall_count = 0\n                        stall_norm = norm_for_stall\n", "                    if not (norm_diff <= stall_tol):\n                        stall_count = stall_count + 1\n                        if stall_limit <= stall_count:\n                            stalled = True\n                    else:\n                        stall_count = 0\n                        stall_norm = norm_for_stall\n", 'C09.stall'),
+    Twin('twin-lin-guard-predicate-helper', _S, "        while self._iter_count < maxiter and norm > atol and norm / norm0 > rtol:\n", "        while self._iter_count < maxiter and self._tols_unmet(norm, norm0, atol, rtol):\n",
+         also=[(_S, "    def _run_apply(self):\n        \"\"\"\n        Run the apply_linear method on the system.\n", "    @staticmethod\n    def _tols_unmet(norm, norm0, atol, rtol):\n        return norm > atol and norm / norm0 > rtol\n\n    def _run_apply(self):\n        \"\"\"\n        Run the apply_linear method on the system.\n")]),
+    Mutant('lin-guard-predicate-helper-or', _S, "        while self._iter_count < maxiter and norm > atol and norm / norm0 > rtol:\n", "        while self._iter_count < maxiter and self._tols_unmet(norm, norm0, atol, rtol):\n", 'C09.guard',
+           also=[(_S, "    def _run_apply(self):\n        \"\"\"\n        Run the apply_linear method on the system.\n", "    @staticmethod\n    def _tols_unmet(norm, norm0, atol, rtol):\n        return norm > atol or norm / norm0 > rtol\n\n    def _run_apply(self):\n        \"\"\"\n        Run the apply_linear method on the system.\n")]),
+    Mutant('lin-guard-predicate-helper-args-swapped', _S, "        while self._iter_count < maxiter and norm > atol and norm / norm0 > rtol:\n",
+           "        while self._iter_count < maxiter and self._tols_unmet(norm, norm0, rtol, atol):\n", 'C09.guard',
+           also=[(_S, "    def _run_apply(self):\n        \"\"\"\n        Run the apply_linear method on the system.\n", "    @staticmethod\n    def _tols_unmet(norm, norm0, atol, rtol):\n        return norm > atol and norm / norm0 > rtol\n\n    def _run_apply(self):\n        \"\"\"\n        Run the apply_linear method on the system.\n")]),
     Mutant('stall-no-reset', _S, '                    else:\n                        stall_count = 0\n                        stall_norm = norm_for_stall',
            '                    else:\n                        stall_norm = norm_for_stall', 'C09.stall'),
     Mutant('stall-type-swapped', _S, "rec.rel if stall_tol_type == 'rel' else rec.abs", "rec.abs if stall_tol_type == 'rel' else rec.rel", 'C09.stall'),
